@@ -212,34 +212,63 @@ func Gen(r *rand.Rand, name, family string, o GenOpts) Item {
 		if r.Intn(3) == 0 {
 			sc.Brokers = 1
 		}
-		waves := 2 + r.Intn(2)
-		c := split(r, n, waves, 2)
-		msgs(r, sc, c, 80)
 		f := cluster.Fault{Kind: cluster.Fatal, Err: fatalCodes[r.Intn(len(fatalCodes))], Only: -1}
 		if r.Intn(2) == 0 {
 			f = retriable(r)
 		}
-		if r.Intn(4) == 0 {
-			f.Only = r.Intn(2)
-		}
-		if r.Intn(3) == 0 {
-			sc.Script = append(sc.Script, cluster.Fault{Kind: cluster.Ok, Only: -1})
-		}
-		sc.Script = append(sc.Script, f)
-		tail(r, sc, o)
 		switch r.Intn(3) {
 		case 0:
-			// the failing request is kept back until the next message sits in the old worker's buffer, the
-			// worker's next request until the fresh wave went in
+			// as the corpus witness: a first wave of one message whose request is kept back until the first message
+			// of wave 1 sits in the old worker's buffer; the answer fails; the old worker's next request (its
+			// backlog) is kept back while wave 2 goes in, through a fresh worker
+			c := []int{1, 1 + r.Intn(3), 0}
+			c[2] = n - c[0] - c[1]
+			hotTopic, hot := msgs(r, sc, c, 85)
+			for i := range sc.Msgs {
+				if id := sc.Msgs[i].ID; id == 1 || id == c2id(c, 1) || id == c2id(c, 2) {
+					sc.Msgs[i].Topic, sc.Msgs[i].Choice = hotTopic, hot
+				}
+			}
+			if r.Intn(3) == 0 && sc.Partitions > 1 {
+				// the failing request belongs to a neighbour partition of the same broker
+				sc.Msgs[0].Choice = (hot + int32(sc.Brokers)) % int32(sc.Partitions)
+			}
+			sc.Script = append(sc.Script, f)
+			if r.Intn(3) > 0 {
+				// the backlog and the first fresh request are served
+				sc.Script = append(sc.Script, cluster.Fault{Kind: cluster.Ok, Only: -1}, cluster.Fault{Kind: cluster.Ok, Only: -1})
+			}
 			it.Steer = []Steer{
-				{HoldKind: "bridge.send", HoldNth: len(sc.Script), ReleaseOn: &Release{Kind: "bp.add", Count: len(sc.Script) + 1}},
-				{HoldKind: "bridge.send", HoldNth: len(sc.Script) + 1, Gate: 1, ReleaseAfterWave: 1},
+				{HoldKind: "bridge.send", HoldNth: 1, Gate: 1, ReleaseOn: &Release{Kind: "bp.add", MsgID: c2id(c, 1)}},
+				{HoldKind: "bridge.send", HoldNth: 2, Gate: 2, ReleaseAfterWave: 2},
+			}
+			if r.Intn(2) == 0 {
+				it.Steer[1].ReleaseAfterWave, it.Steer[1].ReleaseOn = 0, &Release{Kind: "bp.response", MsgID: c2id(c, 2)}
 			}
 		case 1:
+			c := split(r, n, 2+r.Intn(2), 2)
+			msgs(r, sc, c, 80)
+			if r.Intn(3) == 0 {
+				sc.Script = append(sc.Script, cluster.Fault{Kind: cluster.Ok, Only: -1})
+			}
+			if r.Intn(4) == 0 {
+				f.Only = r.Intn(2)
+			}
+			sc.Script = append(sc.Script, f)
 			it.Steer = []Steer{{HoldKind: "pp.abandon", HoldNth: 1, ReleaseAfterWave: 1}, {HoldKind: "return.error", HoldNth: 1, Gate: 1}}
 		default:
+			c := split(r, n, 2+r.Intn(2), 2)
+			msgs(r, sc, c, 80)
+			if r.Intn(3) == 0 {
+				sc.Script = append(sc.Script, cluster.Fault{Kind: cluster.Ok, Only: -1})
+			}
+			if r.Intn(4) == 0 {
+				f.Only = r.Intn(2)
+			}
+			sc.Script = append(sc.Script, f)
 			it.Steer = []Steer{{HoldKind: "return.error", HoldNth: 1, Gate: 1}}
 		}
+		tail(r, sc, o)
 	case FamW4:
 		// leader move while a chaser is in flight
 		sc.Brokers = 2
